@@ -207,7 +207,7 @@ func (e *Explorer) Explore() Stats {
 
 	// Root execution: owned by shard 0 for counting; every shard runs it to
 	// enumerate the level-1 subtrees.
-	root := RunOnce(e.Sc, nil, false, e.states)
+	root := RunOnce(e.Sc, nil, false, nil)
 	if e.Shard == 0 || e.NShards <= 1 {
 		if e.Sc.Teardown != nil {
 			e.Sc.Teardown(root)
